@@ -773,6 +773,12 @@ package ugo
 //@ loop 0 step[setfree@C02] prev(vm.curInsts[vm.ip+1]) == byte(OpSetFree) ==> vm.sp == prev(vm.sp)-1 && vm.ip == prev(vm.ip)+2 && *prev(vm.curFrame.freeVars[int(vm.curInsts[vm.ip+2])]).Value == prev(vm.stack[vm.sp-1])
 //@ loop 0 step[getfreeptr@C02] prev(vm.curInsts[vm.ip+1]) == byte(OpGetFreePtr) ==> vm.sp == prev(vm.sp)+1 && vm.ip == prev(vm.ip)+2 && vm.stack[prev(vm.sp)] == Object(prev(vm.curFrame.freeVars[int(vm.curInsts[vm.ip+2])]))
 //@ loop 0 step[getlocalptr@C02] prev(vm.curInsts[vm.ip+1]) == byte(OpGetLocalPtr) && prev(vm.curFrame.basePointer+int(vm.curInsts[vm.ip+2]) < vm.sp) ==> vm.sp == prev(vm.sp)+1 && vm.ip == prev(vm.ip)+2 && specIsBoxed(vm.stack[prev(vm.sp)]) && vm.stack[prev(vm.sp)] == vm.stack[prev(vm.curFrame.basePointer+int(vm.curInsts[vm.ip+2]))] && specDeref(vm.stack[prev(vm.sp)]) == prev(specDeref(vm.stack[vm.curFrame.basePointer+int(vm.curInsts[vm.ip+2])]))
+//@ loop 0 step[jumpfalsyF@C02] prev(vm.curInsts[vm.ip+1]) == byte(OpJumpFalsy) && prev(specIsBoolValue(vm.stack[vm.sp-1], false)) ==> vm.sp == prev(vm.sp)-1 && vm.ip == prev(specOperand32(vm.curInsts, vm.ip+2))-1
+//@ loop 0 step[jumpfalsyT@C02] prev(vm.curInsts[vm.ip+1]) == byte(OpJumpFalsy) && prev(specIsBoolValue(vm.stack[vm.sp-1], true)) ==> vm.sp == prev(vm.sp)-1 && vm.ip == prev(vm.ip)+5
+//@ loop 0 step[andjumpF@C02] prev(vm.curInsts[vm.ip+1]) == byte(OpAndJump) && prev(specIsBoolValue(vm.stack[vm.sp-1], false)) ==> vm.sp == prev(vm.sp) && vm.ip == prev(specOperand32(vm.curInsts, vm.ip+2))-1 && vm.stack[vm.sp-1] == prev(vm.stack[vm.sp-1])
+//@ loop 0 step[andjumpT@C02] prev(vm.curInsts[vm.ip+1]) == byte(OpAndJump) && prev(specIsBoolValue(vm.stack[vm.sp-1], true)) ==> vm.sp == prev(vm.sp)-1 && vm.ip == prev(vm.ip)+5
+//@ loop 0 step[orjumpT@C02] prev(vm.curInsts[vm.ip+1]) == byte(OpOrJump) && prev(specIsBoolValue(vm.stack[vm.sp-1], true)) ==> vm.sp == prev(vm.sp) && vm.ip == prev(specOperand32(vm.curInsts, vm.ip+2))-1 && vm.stack[vm.sp-1] == prev(vm.stack[vm.sp-1])
+//@ loop 0 step[orjumpF@C02] prev(vm.curInsts[vm.ip+1]) == byte(OpOrJump) && prev(specIsBoolValue(vm.stack[vm.sp-1], false)) ==> vm.sp == prev(vm.sp)-1 && vm.ip == prev(vm.ip)+5
 //@ loop 0 step[jump@C02] prev(vm.curInsts[vm.ip+1]) == byte(OpJump) ==> vm.sp == prev(vm.sp) && vm.ip == prev(specOperand32(vm.curInsts, vm.ip+2))-1
 //@ loop 0 step[return@C02] prev(vm.curInsts[vm.ip+1]) == byte(OpReturn) ==> vm.frameIndex == prev(vm.frameIndex)-1 && vm.curFrame == &vm.frames[vm.frameIndex-1] && vm.ip == prev(vm.frames[vm.frameIndex-2].ip) && vm.sp == prev(specReturnBase(vm.curFrame.basePointer, vm.curFrame.fn.NumLocals))
 //@ loop 0 step[returnvalue@C02] prev(vm.curInsts[vm.ip+1]) == byte(OpReturn) && prev(vm.curInsts[vm.ip+2]) == 1 ==> vm.stack[vm.sp-1] == prev(vm.stack[vm.sp-1])
